@@ -86,4 +86,17 @@ CHECKS = {
         technique="TLA+ poll-discipline model checked by TLC; fault enumeration over every poll index on the real "
                   "pipeline with TLC trace validation of the recorded LoopIter/poll events",
         ref="DESIGN.md §4 C13"),
+    "C16": dict(
+        category="model_checking",
+        text="TypeLattice.tla defines the evidence domain, the pairwise Merge (written from the merge table), the "
+             "normalisation the statement allows (conflict payloads dropped, least representative under emitted "
+             "equalities) and the laws; TLC evaluates commutativity on all 1600 ordered pairs and associativity on all "
+             "64000 ordered triples of the statement's 40-element domain and classifies every failing triple; the real "
+             "merge is evaluated on the same pairs and triples in both groupings and LatticeTrace.tla checks "
+             "Inv_C16_Comm / Inv_C16_Assoc on every record and the agreement of every pair with the specification.",
+        note="Exhaustive over the stated finite domain in both tiers. Two families of grouping-dependence are genuine "
+             "defects of the design and are listed in known_findings.json (FamilyA, FamilyB); anything outside them is a "
+             "violation. Packed encodings are outside this domain.",
+        technique="TLA+ lattice specification evaluated exhaustively by TLC; TLC trace validation of the real merge table",
+        ref="DESIGN.md §4 C16"),
 }
